@@ -454,7 +454,7 @@ theorem gc_inv {cfg : Cfg} {s : State} (hinv : Inv cfg s) (keepP : List Addr) (k
   split
   · rename_i hok
     simp only [gcOk, Bool.and_eq_true, List.all_eq_true, Bool.or_eq_true, Bool.not_eq_true'] at hok
-    obtain ⟨⟨⟨⟨⟨⟨_, hkg⟩, hnc⟩, hen⟩, hheap⟩, hsubs⟩, hconfs⟩ := hok
+    obtain ⟨⟨⟨⟨⟨⟨⟨⟨_, hkg⟩, hnc⟩, hen⟩, hheap⟩, hsubs⟩, hconfs⟩, _⟩, _⟩ := hok
     have heapLk : ∀ a, (List.lookup a (s.heap.filter fun e => keepP.contains e.1)) =
         if keepP.contains a then s.heap.lookup a else none := fun a => lookup_filter_key (fun x => keepP.contains x) a s.heap
     have confLk : ∀ k, (List.lookup k (s.confs.filter fun e => keepC.contains e.1)) =
@@ -773,42 +773,6 @@ theorem dropEnum_inv {cfg : Cfg} {s : State} (hinv : Inv cfg s) (e : EnumId) : I
   split at h1
   · exact hinv.enums hko e' ec a v cols h1 h2
   · cases h1
-
-/-! ### histories -/
-
-theorem step_inv {cfg : Cfg} (hcfg : cfgOk cfg = true) (hko : cfg.keyByObj = true) {alloc : Alloc}
-    (hal : ValidAlloc alloc) {s : State} (hinv : Inv cfg s) (op : Op) : Inv cfg (step cfg alloc s op) := by
-  cases op with
-  | newConf k nc items =>
-    simp only [step]
-    split
-    · rename_i s' h; exact newConf_inv hcfg hinv h
-    · exact hinv
-  | dropConf k => exact dropConf_inv hinv k
-  | gc kp kc => exact gc_inv hinv kp kc
-  | setGlobal k =>
-    simp only [step]
-    split
-    · rename_i s' h; exact setGlobal_inv hinv h
-    · exact hinv
-  | newEnum e =>
-    simp only [step]
-    split
-    · rename_i s' h; exact newEnum_inv hinv h
-    · exact hinv
-  | dropEnum e => exact dropEnum_inv hinv e
-  | render k nc sh =>
-    simp only [step]
-    split
-    · rename_i s' out h; exact (render_spec hcfg hko hal hinv h).1
-    · exact hinv
-
-theorem run_inv {cfg : Cfg} (hcfg : cfgOk cfg = true) (hko : cfg.keyByObj = true) {alloc : Alloc}
-    (hal : ValidAlloc alloc) : ∀ (ops : List Op) (s : State), Inv cfg s → Inv cfg (run cfg alloc s ops) := by
-  intro ops
-  induction ops with
-  | nil => intro s h; exact h
-  | cons op ops ih => intro s h; exact ih _ (step_inv hcfg hko hal h op)
 
 theorem initState_inv {cfg : Cfg} (hcfg : cfgOk cfg = true) (hmk : ∃ c, mkConf cfg false [] = .ok c) :
     Inv cfg (initState cfg) := by
